@@ -24,3 +24,9 @@ claim("C10",
       "Decides that every instruction that changes the DHCPv4 lease table or a registered lease is followed, on every path to a successful return of its outermost entry point, by the database-store notification (so the file lists the leases in memory), that a lease obtained from the allocator or the table is never registered a second time (no duplicate entries in the list, the API or the file), that the lease list, both indexes and the pool-offset set are always changed together, and that static-lease insertion is reached only after the validation calls succeeded. "
       "These are structural necessary conditions of 'the lease database lists exactly the leases in memory, each once'; address/client uniqueness over message histories, pool exhaustion, expiry and matching logic inside the mutators are value-level and not decided.",
       "DESIGN.md §5 C10")
+
+claim("C07",
+      "encoder/decoder key-set and token-kind agreement from go/types struct tags vs. the typed AST of the streaming decoder + guarded-store field invariant and dominating length guards for request integers + funnel / must-reach / cursor-provenance checks on SSA (static analysis)",
+      "Decides that every key encoding/json writes for a log entry and its nested result types has a decoder case with the right token kind (so an entry read back from querylog.json carries every recorded field), that the request integers limit/offset can reach the slicing code only non-negative and without overflow and every request-bounded slice is length-guarded (no parameter value crashes the request), that entries enter the buffer through one funnel and the buffer is encoded and cleared in one critical section, that shutdown flushes memory to the file, and that the paging cursor advances with every scanned record. "
+      "Exactly-once/newest-first over memory+file+rotated file, cursor/offset partitioning and search-term semantics quantify over histories and values and are not decided.",
+      "DESIGN.md §5 C07")
